@@ -446,6 +446,11 @@ def wrapper(ctx):
         for tup in itertools.product(btoks, repeat=n):
             for e in ("grep", "posix-basic"):
                 cases.append(("".join(tup), e))
+    # posix-extended: the pieces around an interval without a lower bound (quoted and unquoted braces and backslashes, brackets)
+    etoks = ["a", "\\\\", "\\{", "\\[", "{,2}", "{,", "{", "}", ",", "[{,]", "[", "]", "(", ")", "2"]
+    for n in range(1, (5 if ctx.thorough else 4) + 1):
+        for tup in itertools.product(etoks, repeat=n):
+            cases.append(("".join(tup), "posix-extended"))
     il = ["rxwrap %s %s" % (e, fw.hexs(p.encode())) for p, e in cases]
     ml = ["rxwrap %s %s" % (e, ".".join(str(ord(c)) for c in p) if p else "-") for p, e in cases]
     impl = fw.run_lines(fw.FUV, il)
